@@ -146,6 +146,39 @@ def run(chk, prog):
                    'the cache is computed from %s (eq compares %s)' % (sorted(reads), sorted(eqr)),
                    'the text cache is computed from %s but eq compares %s' % (sorted(reads), sorted(eqr)), gcs.loc(0))
 
+    # a path whose components (or relativity) are changed after it was built must not carry a text cache filled for
+    # the old components: the changed value is one the function has just built fresh, or the cache is reset
+    n_mut = 0
+    for fn in sorted(prog.fns.values(), key=lambda f: f.p):
+        if fn.crate != 'bladeink':
+            continue
+        resets = set()
+        sites_ = []
+        for bb, si, s in fn.stmts():
+            if s['k'] != 'assign':
+                continue
+            cands = [('assigned', s['pl'])]
+            if s['rv']['k'] == 'ref' and s['rv'].get('mut'):
+                cands.append(('borrowed mutably', s['rv']['pl']))
+            for kind, pl in cands:
+                for pr in pl.get('p', []):
+                    if pr.get('k') == 'field' and pr.get('adt', '').endswith('path::Path'):
+                        if pr.get('n') == 'components_string' and kind == 'assigned':
+                            resets.add(pl['l'])
+                        elif pr.get('n') in ('components', 'is_relative'):
+                            sites_.append((bb, si, kind, pr['n'], pl['l']))
+        for bb, si, kind, fld, l in sites_:
+            n_mut += 1
+            at = tr.prov_local(fn, l)
+            stale = sorted(a for a in at if a.startswith(('arg:', 'field:', 'upvar:')) or 'Clone' in a or 'clone' in a)
+            chk.decide(RA, chk.key(RA, 'changed-after-build', prog.root_fn(fn).short, fld), not stale or l in resets,
+                       'the path being changed was built in place (empty cache)',
+                       '%s changes Path::%s of a path that may already carry its cached text form (the value comes from %s) '
+                       'without resetting Path::components_string: the text, and the hash computed from it, stay those of '
+                       'the old components - the position reported for a pointer reads back as its container'
+                       % (prog.root_fn(fn).short, fld, stale[:3]), fn.loc(bb, si))
+    chk.floor(RA, 'places that change a Path after it was built', n_mut, 1)
+
     # the cache is not observable: nothing but its producer (and Clone) reads it, in particular not eq / cmp
     CACHE_READERS = {'Path::get_components_string': 'the producer', '<Path as Clone>::clone': 'copies the cache with the value',
                      '<Path as Default>::default': 'empty cache'}
